@@ -128,6 +128,14 @@ def modelStep (w : World) (ws : List String) : World × String :=
       match parseMeta spec with
       | some m => if isReserved m then bad else (saveRegion w m, "ok")
       | none => bad
+    | ["failregion", spec] =>
+      match parseMeta spec with
+      | some m =>
+        if !isRS w || isReserved m then bad else
+        let r := w.rs.saveFailed m
+        ({ w with rs := r.1 }, errWord r.2)
+      | none => bad
+    | ["failflush"] => if isRS w then ({ w with rs := w.rs.flushFailed }, "err") else bad
     | ["corrupt", i] =>
       let m := corruptMeta (natArg i)
       if isRS w then ({ w with rs := { w.rs with ldb := kvSave w.rs.ldb m.id m } }, "ok")
@@ -203,6 +211,7 @@ structure Mon where
   weights   : List (Nat × (Nat × Nat)) := []
   regions   : C17.Track Meta := {}
   lost      : Bool := false                           -- tracking given up (op on a stopped process before a load)
+  unsure    : List Nat := []                          -- ids whose last save returned an error: may or may not be stored
   onceDone  : Bool := false                           -- a LoadRegionsOnce has returned success on this Storage (region backend)
 
 def field (obs : String) (key : String) : Option String :=
@@ -232,21 +241,24 @@ def parseSItem (s : String) : SItem :=
     | _ => { id := natArg i, ver := natArg v, lw := 0, rw := 0 }
   | _ => { id := 0, ver := 0, lw := 0, rw := 0 }
 
-/-- judge a reported load (ids + checksum, and the full items when present) against the expectation -/
-def judgeLoad {V : Type} [DecidableEq V] (kind : String) (h : Nat × V → Nat) (expected : List (Nat × V))
-    (obs : String) (tag : String) (parse : String → Option (Nat × V)) : List String :=
+/-- judge a reported load (ids + checksum, and the full items when present) against the expectation; ids in
+    `unsure` (their last save returned an error) are left out on both sides -/
+def judgeLoad {V : Type} [DecidableEq V] (kind : String) (h : Nat × V → Nat) (expected0 : List (Nat × V))
+    (obs : String) (tag : String) (parse : String → Option (Nat × V)) (unsure : List Nat := []) : List String :=
+  let expected := if unsure.isEmpty then expected0 else expected0.filter (fun e => !unsure.contains e.1)
   match field obs (tag ++ "ids"), natField obs (tag ++ "sum") with
   | some idss, some sum =>
-    let ids := parseIDs idss
+    let ids0 := parseIDs idss
+    let ids := if unsure.isEmpty then ids0 else ids0.filter (fun i => !unsure.contains i)
     if ids != expected.map (·.1) then
       let dup := ids.filter (fun i => ids.count i > 1)
       [s!"sig=C17.load-not-exact kind={kind} missing={C17.missing expected ids} extra={C17.extra expected ids} dup={dup.eraseDups} loaded={ids.length} expected={expected.length}"]
-    else if !C17.checkDigest h expected ids sum then
+    else if unsure.isEmpty && !C17.checkDigest h expected ids sum then
       [s!"sig=C17.load-wrong-content kind={kind} n={ids.length} sum={sum}"]
     else
       match field obs (tag ++ "items") with
       | some its =>
-        let loaded := (parseItems its).filterMap parse
+        let loaded := ((parseItems its).filterMap parse).filter (fun e => !unsure.contains e.1)
         if C17.checkLoad expected loaded then [] else [s!"sig=C17.load-wrong-content kind={kind} items={its}"]
       | none => []
   | _, _ => [s!"sig=C17.unreadable-observation {obs}"]
@@ -257,6 +269,10 @@ def expectedStores (m : Mon) : List (Nat × SItem) :=
   m.stores.map (fun e =>
     let wt := match m.weights.find? (fun x => x.1 == e.1) with | some x => x.2 | none => (oneBits, oneBits)
     (e.1, { id := e.1, ver := e.2, lw := wt.1, rw := wt.2 }))
+
+/-- ids saved by a bulk op are no longer unsure -/
+def clearBulk (unsure : List Nat) (n st step : Nat) : List Nat :=
+  unsure.filter (fun i => !((List.range n).any (fun k => st + k * step == i)))
 
 def trackBulk (t : C17.Track Meta) (n st step width : Nat) : C17.Track Meta :=
   (List.range n).foldl (fun t k => t.save (bulkMeta st step width k).id (bulkMeta st step width k)) t
@@ -293,16 +309,25 @@ def monitor (m : Mon) (ws : List String) (impl : String) : Mon × List String :=
             (fun s => let x := parseSItem s; some (x.id, x)))
     | ["region", spec] =>
       match parseMeta spec with
-      | some r => (if okObs then { m with regions := m.regions.save r.id r } else m, [])
+      | some r => (if okObs then { m with regions := m.regions.save r.id r, unsure := m.unsure.filter (· != r.id) } else m, [])
+      | none => (m, [])
+    | ["failregion", spec] =>
+      match parseMeta spec with
+      | some r =>
+        if okObs then ({ m with regions := m.regions.save r.id r, unsure := m.unsure.filter (· != r.id) }, [])
+        else if impl == "err" then ({ m with regions := m.regions.save r.id r, unsure := r.id :: m.unsure }, [])
+        else (m, [])
       | none => (m, [])
     | ["regions", n, st, step, width] =>
-      (if okObs then { m with regions := trackBulk m.regions (natArg n) (natArg st) (natArg step) (natArg width) } else m, [])
-    | ["delregion", i] => (if okObs then { m with regions := m.regions.delete (natArg i) } else m, [])
+      (if okObs then { m with regions := trackBulk m.regions (natArg n) (natArg st) (natArg step) (natArg width), unsure := clearBulk m.unsure (natArg n) (natArg st) (natArg step) } else m, [])
+    | ["delregion", i] =>
+      (if okObs then { m with regions := m.regions.delete (natArg i), unsure := m.unsure.filter (· != natArg i) } else m, [])
     | ["flush"] | ["bgflush"] => (if okObs then { m with regions := m.regions.flush } else m, [])
     | ["close"] => (if okObs then { m with regions := m.regions.flush, onceDone := false } else m, [])
-    | ["crash"] => (if okObs then { m with regions := m.regions.crash, onceDone := false } else m, [])
+    | ["crash"] =>
+      (if okObs then { m with regions := m.regions.crash, onceDone := false, lost := m.lost || !m.unsure.isEmpty } else m, [])
     | ["loadregion", i] =>
-      if !okObs || (m.rsBackend && m.regions.dirty) then (m, []) else
+      if !okObs || (m.rsBackend && m.regions.dirty) || m.unsure.contains (natArg i) then (m, []) else
       let exp := match C17.mget m.regions.cur (natArg i) with | some r => s!"ok {fmtMeta r}" | none => "ok none"
       (m, if impl == exp then [] else [s!"sig=C17.single-load-wrong id={natArg i} expected={exp} got={impl}"])
     | "loadregions" :: mode :: _ =>
@@ -327,7 +352,7 @@ def monitor (m : Mon) (ws : List String) (impl : String) : Mon × List String :=
               [s!"sig=C17.load-after-stop-wrong durable={t.dur.map (·.1)} pending={t.pend.map (·.1)} loaded={loaded.map (·.1)}"])
           | none => (t, [])   -- too large to judge; generators keep stopped sets small
         else if m.rsBackend && t.dirty then (t, [])
-        else (t, judgeLoad "regions" (fun e => metaSum e.2) t.cur impl "" parseMetaItem)
+        else (t, judgeLoad "regions" (fun e => metaSum e.2) t.cur impl "" parseMetaItem m.unsure)
       if mode != "prune" then ({ m with regions := t1 }, fails1) else
       -- pruning: storage afterwards = cache, non-overlapping
       match field impl "citems", field impl "kitems", field impl "cids", field impl "kids" with
